@@ -613,7 +613,7 @@ Definition ke_fmod sb : kx := ke_rem_of sb v0 ke_guard.
 Definition ke_max : kx := KOp2 OMax v0 v1.
 Definition ke_min : kx := KOp2 OMin v0 v1.
 Definition ke_clamp : kx := KOp2 OMin (KOp2 OMax v0 v1) v2.
-Definition ke_relu : kx := KOp1 ORelu v0.
+Definition ke_relu (sb : ity) : kx := if is_signed sb then KOp1 ORelu v0 else KOp1 OIdentity v0.
 Definition ke_clip_op : kx := KOp3 OClip v0 v1 v2.
 Definition ke_relu6 : kx := KOp2 OMin (KOp1 OCastFloat (KOp2 OMax v0 (kz 0))) (kz 6).
 Definition ke_select_n : kx := KOp3 OWhere v0 v2 v1.
@@ -691,7 +691,8 @@ Lemma ke_max_sound x y : kev_s ke_max [VZ x; VZ y] = VZ (lowered_max x y). Proof
 Lemma ke_min_sound x y : kev_s ke_min [VZ x; VZ y] = VZ (lowered_min x y). Proof. reflexivity. Qed.
 Lemma ke_clamp_sound x lo hi : kev_s ke_clamp [VZ x; VZ lo; VZ hi] = VZ (lowered_clamp x lo hi). Proof. reflexivity. Qed.
 Lemma ke_clip_sound x lo hi : kev_s ke_clamp [VZ x; VZ lo; VZ hi] = VZ (lowered_clip x lo hi). Proof. reflexivity. Qed.
-Lemma ke_relu_sound x : kev_s ke_relu [VZ x] = VZ (lowered_relu x). Proof. reflexivity. Qed.
+Lemma ke_relu_sound sb x : kev_s (ke_relu sb) [VZ x] = VZ (lowered_relu sb x).
+Proof. unfold ke_relu, lowered_relu, repaired_relu. now destruct (is_signed sb). Qed.
 Lemma ke_relu6_sound x : kev_s ke_relu6 [VZ x] = VZ (lowered_relu6 x). Proof. reflexivity. Qed.
 Lemma ke_select_n_sound p x y : kev_s ke_select_n [VB p; VZ x; VZ y] = VZ (lowered_select_n p x y). Proof. reflexivity. Qed.
 Lemma ke_select_n_b_sound p x y : kev_s ke_select_n_b [VB p; VB x; VB y] = VB (lowered_select_n_b p x y). Proof. reflexivity. Qed.
@@ -833,7 +834,7 @@ Definition ttrue3 {A B C} : A -> B -> C -> Prop := fun _ _ _ => True.
 Lemma tdom2_true {A B} (X : tensor A) (Y : tensor B) : tdom2 ttrue2 X Y. Proof. intros idx _. exact I. Qed.
 Lemma tdom3_true {A B C} (X : tensor A) (Y : tensor B) (Z : tensor C) : tdom3 ttrue3 X Y Z. Proof. intros idx _. exact I. Qed.
 
-Ltac kuses_tac := unfold ke_neg, ke_shift_left, ke_shift_right_logical, ke_shift_right_arithmetic; repeat (cbn; try match goal with |- context [if is_signed ?s then _ else _] => destruct (is_signed s) end); tauto.
+Ltac kuses_tac := unfold ke_neg, ke_relu, ke_shift_left, ke_shift_right_logical, ke_shift_right_arithmetic; repeat (cbn; try match goal with |- context [if is_signed ?s then _ else _] => destruct (is_signed s) end); tauto.
 
 Section Lifted.
   Variable sb : ity.
@@ -967,8 +968,11 @@ Proof. intro H. apply (@lift3_k SZ SZ SZ SZ ke_clamp lowered_clip jax_clip ttrue
 Theorem clip_op_lifted X Lo Hi u : bcommon [shape X; shape Lo; shape Hi] u ->
   teq (kev_t ke_clip_op [zt X; zt Lo; zt Hi]) (zt (tmap3b jax_clip X Lo Hi)).
 Proof. intro H. apply (@lift3_k SZ SZ SZ SZ ke_clip_op lowered_clip_op jax_clip ttrue3) with (u := u); auto using tdom3_true, clip_op_correct; try kuses_tac; try (intros idx _; exact I). Qed.
-Theorem relu_lifted X : teq (kev_t ke_relu [zt X]) (zt (tmap jax_relu X)).
-Proof. apply (@lift1_k SZ SZ ke_relu lowered_relu jax_relu (fun _ => True)); auto using relu_correct; try kuses_tac; try (intros idx _; exact I). Qed.
+Theorem relu_lifted sb X : tdom1 (in_int sb) X -> teq (kev_t (ke_relu sb) [zt X]) (zt (tmap jax_relu X)).
+Proof.
+  intro H. apply (@lift1_k SZ SZ (ke_relu sb) (lowered_relu sb) jax_relu (in_int sb)); auto.
+  - intro x. apply ke_relu_sound. - unfold ke_relu. destruct (is_signed sb); cbn; tauto. - intros x Hx. now apply relu_correct.
+Qed.
 Theorem relu6_lifted X : teq (kev_t ke_relu6 [zt X]) (zt (tmap jax_relu6 X)).
 Proof. apply (@lift1_k SZ SZ ke_relu6 lowered_relu6 jax_relu6 (fun _ => True)); auto using relu6_correct; try kuses_tac; try (intros idx _; exact I). Qed.
 Theorem select_n_lifted (P : tensor bool) X Y u : bcommon [shape P; shape X; shape Y] u ->
